@@ -223,7 +223,11 @@ func (g *Gen) leaf(t Ty, sc *Scope) *Expr {
 	}
 	switch t {
 	case TInt:
-		return Int(rapid.IntRange(-3, 12).Draw(g.T, "int"))
+		e := Int(rapid.IntRange(-3, 12).Draw(g.T, "int"))
+		if e.I >= 0 && g.chance(6, "leadingZeros") {
+			e.Z = 1 + g.n(2, "zeros")
+		}
+		return e
 	case TFloat:
 		return Float(dyadics[g.n(len(dyadics), "flt")])
 	case TStr:
@@ -362,7 +366,61 @@ func (g *Gen) pickLetType() Ty {
 	return ts[g.n(len(ts), "letTy")]
 }
 
+// genLazyThenLets: a lazily evaluated list is bound first, two to five more locals are
+// declared behind it, and only then the list is read for the first time (the stack has
+// grown between the creation of the list and its evaluation).
+func (g *Gen) genLazyThenLets(t Ty, sc *Scope, d int) *Expr {
+	g.Stats["lazy_list_read_behind_later_lets"]++
+	lname := g.freshName(sc, "lazyName")
+	src := g.Expr(TLInt, sc, d-2, false)
+	var lazy *Expr
+	switch g.n(6, "lazyKind") {
+	case 0:
+		lazy = MCall(src, "map", g.lamInt(sc, 1))
+	case 1:
+		lazy = MCall(src, "accept", g.lamBool(sc, 1))
+	case 2, 3:
+		lazy = MCall(src, "iir", g.lamInt(sc, 1), g.lam2(sc, 1, TInt, TInt, TInt))
+	case 4:
+		lazy = MCall(src, "number", g.lam2(sc, 1, TInt, TInt, TInt))
+	default:
+		lazy = MCall(src, "combine", g.lam2(sc, 1, TInt, TInt, TInt))
+	}
+	cur := sc.with(Binding{lname, TLInt}, true)
+	type lt struct {
+		name string
+		val  *Expr
+	}
+	var lets []lt
+	k := 2 + g.n(4, "moreLets")
+	for i := 0; i < k; i++ {
+		n := g.freshName(cur, "laterName")
+		lets = append(lets, lt{n, g.Expr(TInt, cur, 1, false)})
+		cur = cur.with(Binding{n, TInt}, true)
+	}
+	ps := g.freshNames(cur, 2)
+	if ps[0] == ps[1] {
+		ps[1] = ps[1] + "_"
+	}
+	read := Bin("+", MCall(Var(lname), "mapReduce", Int(0), Lam(ps, Bin("+", Var(ps[0]), Var(ps[1])))), Var(lets[k-1].name))
+	rname := g.freshName(cur, "readName")
+	cur = cur.with(Binding{rname, TInt}, true)
+	g.nodes += 8 + k
+	body := g.Expr(t, cur, d-2, true)
+	if t == TInt {
+		body = Bin("+", Var(rname), g.Expr(TInt, cur, d-2, false))
+	}
+	e := Let(rname, read, body)
+	for i := k - 1; i >= 0; i-- {
+		e = Let(lets[i].name, lets[i].val, e)
+	}
+	return Let(lname, lazy, e)
+}
+
 func (g *Gen) genLet(t Ty, sc *Scope, d int) *Expr {
+	if d >= 3 && g.chance(5, "lazyThenLets") {
+		return g.genLazyThenLets(t, sc, d)
+	}
 	g.Stats["let"]++
 	vt := g.pickLetType()
 	name := g.freshName(sc, "letName")
